@@ -6,7 +6,13 @@ package leveldb
 
 import "github.com/syndtr/goleveldb/leveldb/comparer"
 
-func zzUKey() []byte { return []byte{vpNondetU8()} }
+// user keys of length 0..1: the empty key is a legal key and a legal range bound
+func zzUKey() []byte {
+	if vpChoose(2) == 0 {
+		return []byte{}
+	}
+	return []byte{vpNondetU8()}
+}
 
 func zzFile(num int64, lo, hi []byte) *tFile {
 	return &tFile{imin: makeInternalKey(nil, lo, zzSeq(), zzKT()), imax: makeInternalKey(nil, hi, zzSeq(), zzKT())}
